@@ -663,3 +663,127 @@ func ruleRawInput(w *World, r *Report, pkg *ssa.Package, tag string) {
 		r.Bad(rule, tag+":instance-floor", "-", fmt.Sprintf("only %d decoder input sites found behind the document readers", nSites))
 	}
 }
+
+// ruleDiffReaders — R-DIFFREADER. For each of the diff formats named
+// (Diff, Patch, Merge): (a) Read<F>File is Read<F>String of the file's content:
+// every text or byte argument it hands to a function of the package is the
+// content ioutil/os.ReadFile returned, converted at most (no trimming,
+// splitting or re-joining of lines on the way — the two leading blanks of a
+// context line and a trailing newline inside a value are payload); (b) nothing
+// the string reader reaches decodes with the YAML codec: diffs, JSON Patch and
+// JSON Merge Patch documents are JSON texts, and YAML is not a superset of JSON
+// for escapes such as \/ and surrogate pairs.
+func ruleDiffReaders(w *World, r *Report, pkg *ssa.Package, tag string, formats ...string) {
+	rule := "R-DIFFREADER"
+	if tag != "v2" {
+		rule += "(" + tag + ")"
+	}
+	for _, f := range formats {
+		fileFn := pkg.Func("Read" + f + "File")
+		strFn := pkg.Func("Read" + f + "String")
+		if fileFn == nil || strFn == nil || fileFn.Blocks == nil || strFn.Blocks == nil {
+			r.Bad(rule, tag+".Read"+f+"File", "-", "the file or string reader of this format was not found")
+			continue
+		}
+		r.Fn(fnName(fileFn))
+		r.Fn(fnName(strFn))
+		// (a)
+		isContent := func(v ssa.Value) bool {
+			for {
+				switch x := v.(type) {
+				case *ssa.Convert:
+					v = x.X
+					continue
+				case *ssa.ChangeType:
+					v = x.X
+					continue
+				}
+				break
+			}
+			ex, ok := v.(*ssa.Extract)
+			if !ok || ex.Index != 0 {
+				return false
+			}
+			c, ok := ex.Tuple.(*ssa.Call)
+			if !ok {
+				return false
+			}
+			switch calleeFullName(c) {
+			case "io/ioutil.ReadFile", "os.ReadFile", "io/ioutil.ReadAll", "io.ReadAll":
+				return true
+			}
+			return false
+		}
+		bad := ""
+		n := 0
+		allInstrs(fileFn, func(in ssa.Instruction) {
+			c, ok := in.(*ssa.Call)
+			if !ok {
+				return
+			}
+			sf := staticCallee(c)
+			if sf == nil || fnPkg(sf) != pkg.Pkg {
+				// an external function fed with the content is a transformation unless it is the file read itself
+				for _, a := range c.Call.Args {
+					if isTextType(a.Type()) && isContent(a) {
+						bad = "the file's content is passed through " + calleeFullName(c) + " at " + w.Pos(c.Pos())
+					}
+				}
+				return
+			}
+			for _, a := range c.Call.Args {
+				if !isTextType(a.Type()) {
+					continue
+				}
+				if _, isK := a.(*ssa.Const); isK {
+					continue
+				}
+				if p, isP := a.(*ssa.Parameter); isP && p.Parent() == fileFn {
+					continue // the file name
+				}
+				n++
+				if !isContent(a) {
+					bad = fnName(sf) + " is handed " + valueName(strip(a)) + " instead of the file's content, at " + w.Pos(c.Pos())
+				}
+			}
+		})
+		r.Check(bad == "" && n > 0, rule, fnName(fileFn)+":content-untouched", w.Pos(fileFn.Pos()),
+			"the text handed on is the content of the file, converted at most",
+			"the file reader does not hand the file's content on unchanged ("+bad+"): a diff read from a file is not the diff that was written")
+		// (b)
+		seen := map[*ssa.Function]bool{strFn: true}
+		work := []*ssa.Function{strFn}
+		yaml := ""
+		for len(work) > 0 {
+			g := work[0]
+			work = work[1:]
+			withClosures(g, func(h *ssa.Function) {
+				allInstrs(h, func(in ssa.Instruction) {
+					c, ok := in.(ssa.CallInstruction)
+					if !ok {
+						return
+					}
+					name := calleeFullName(c)
+					if strings.Contains(name, "yaml") && strings.Contains(name, "Unmarshal") {
+						yaml = fnName(h) + " decodes with " + name + " at " + w.Pos(c.Pos())
+					}
+					// the decoder handed on as a function value
+					for _, a := range c.Common().Args {
+						if f, isFn := a.(*ssa.Function); isFn {
+							if fn := f.String(); strings.Contains(fn, "yaml") && strings.Contains(fn, "Unmarshal") {
+								yaml = fnName(h) + " hands the decoder " + fn + " on at " + w.Pos(c.Pos())
+							}
+						}
+					}
+					if sf := staticCallee(c); sf != nil && sf.Blocks != nil && fnPkg(sf) == pkg.Pkg && !seen[sf] && sf.Parent() == nil {
+						seen[sf] = true
+						work = append(work, sf)
+					}
+				})
+			})
+		}
+		r.Check(yaml == "", rule, fnName(strFn)+":json-only", w.Pos(strFn.Pos()),
+			fmt.Sprintf("none of the %d functions the reader reaches decodes with the YAML codec", len(seen)),
+			yaml+": this format is a JSON text; yaml.v2 rejects valid JSON escapes (\\/, surrogate pairs), so valid documents are refused")
+	}
+}
